@@ -18,7 +18,13 @@ TOOLS = {
     "superres": ({"cfg.superres_mode": 0}, {"cfg.superres_mode": 1, "cfg.superres_denom": 12, "cfg.superres_kf_denom": 12}, "pan"),
     "filter_intra": ({"cfg.filter_intra_level": 0}, {"cfg.filter_intra_level": 1, "cfg.enc_mode": 3}, "gradient"),
     "inter_intra": ({"cfg.inter_intra_compound": 0}, {"cfg.inter_intra_compound": 1, "cfg.enc_mode": 2}, "rects"),
+    # block-level tools: judged from the decoder's block parser counters (hook H5)
+    "palette": ({"cfg.screen_content_mode": 1, "cfg.palette_level": 0}, {"cfg.screen_content_mode": 1, "cfg.palette_level": 1}, "screen"),
+    "cfl": ({"cfg.disable_cfl_flag": 1}, {"cfg.disable_cfl_flag": 0, "cfg.enc_mode": 4}, "mix"),
+    "obmc": ({"cfg.obmc_level": 0}, {"cfg.obmc_level": 1, "cfg.enc_mode": 3}, "zoom"),
 }
+BLOCK_FIELD = {"palette": "palette", "cfl": "cfl", "obmc": "obmc", "filter_intra": "filter_intra", "inter_intra": "inter_intra",
+               "warped_motion": "warped", "intrabc": "intrabc"}
 
 
 def frames_of(prefix):
@@ -57,6 +63,37 @@ def uses(tool, st, frames):
             u = False
         n += 1 if u else 0
     return n, len(frames)
+
+
+def block_counts(prefix):
+    """Block-level tool use counted by the SVT decoder's parser (hook H5); trusted only when the pictures it decodes
+    equal libaom's (which validates the parse).  -> (counts dict or None, reason)"""
+    import json
+    from .. import build
+    exe = build.harness("plain", "dectools", libs=("dec",))
+    r = core.run([exe, prefix + ".ivf", prefix + ".svtdec"], timeout=600)
+    info = None
+    for ln in r.out.splitlines():
+        if ln.startswith("{"):
+            try:
+                info = json.loads(ln)
+            except ValueError:
+                pass
+    if not info or not info.get("ok") or not info.get("hook"):
+        return None, "SVT decoder could not parse the stream (rc=%s)" % (info or {}).get("rc")
+    st, ai = enc.ref_decode(prefix + ".ivf", "aom", prefix + ".aomdec")
+    if st != "ok":
+        return None, "libaom decode unavailable (%s)" % st
+    a = core.read_frames(prefix + ".aomdec")
+    b = core.read_frames(prefix + ".svtdec")
+    for pth in (prefix + ".aomdec", prefix + ".svtdec"):
+        try:
+            os.unlink(pth)
+        except OSError:
+            pass
+    if len(a) != len(b) or any(x[4] != y[4] for x, y in zip(a, b)):
+        return None, "SVT decoder output differs from libaom: its block parse is not trusted for this stream (C08's subject)"
+    return info, ""
 
 
 def tile_limits(w, h, sb128=False):
@@ -174,6 +211,18 @@ def run(chk, tier, replay=None):
             v = judge_tiles(case, st, frames)
         else:
             n, tot = uses(tool, st, frames)
+            bc = None
+            if tool in BLOCK_FIELD:
+                bc, why = block_counts(prefix)
+                if bc is None:
+                    if tool in ("palette", "cfl", "obmc"):
+                        return kind, tool, case, on, [(None, why)], info
+                else:
+                    info["blocks_parsed"] = bc["blocks"]
+                    if bc[BLOCK_FIELD[tool]]:
+                        v.append(("C20|block-uses-tool-while-off|%s|preset%s" % (tool, case.get("cfg.enc_mode")),
+                                  "%s is switched off in the configuration but %d of %d parsed blocks use it"
+                                  % (tool, bc[BLOCK_FIELD[tool]], bc["blocks"])))
             if n:
                 v.append(("C20|tool-used-while-off|%s|preset%s" % (tool, case.get("cfg.enc_mode")),
                           "%s is switched off in the configuration but %d of %d frames signal it" % (tool, n, tot)))
@@ -182,6 +231,12 @@ def run(chk, tier, replay=None):
             if ok2:
                 st2, fr2 = frames_of(prefix + "_on")
                 n2, _ = uses(tool, st2, fr2)
+                if tool in BLOCK_FIELD:
+                    bc2, _w = block_counts(prefix + "_on")
+                    if bc2 is not None:
+                        info["on_block_uses"] = bc2[BLOCK_FIELD[tool]]
+                        if tool in ("palette", "cfl", "obmc"):
+                            n2 = bc2[BLOCK_FIELD[tool]]
                 info["on_uses"] = n2
             enc.cleanup(prefix + "_on")
         if not v:
@@ -194,6 +249,9 @@ def run(chk, tier, replay=None):
             chk.bump("rejected_config_draws")
             continue
         chk.bump("frames_checked", info.get("frames", 0))
+        chk.bump("blocks_parsed_by_decoder_hook", info.get("blocks_parsed", 0))
+        if info.get("on_block_uses"):
+            chk.note_set("tools_seen_at_block_level_in_on_runs", tool)
         if not v:
             if kind == "tiles":
                 chk.nontrivial_case(core.sha("tiles" + cfggen.case_ident(case)))
